@@ -307,3 +307,37 @@ def confirm_parser(ses, v, time_claims=False):
 
 PY_CONFIRM.update({'c15': lambda ses, v: confirm_parser(ses, v), 'c16': lambda ses, v: confirm_parser(ses, v), 'c11': lambda ses, v: confirm_parser(ses, v, True),
                    'c12': lambda ses, v: confirm_parser(ses, v, True)})
+
+
+# ----------------------------------------------------------------------------- claim constructors (C18)
+def confirm_claims(ses, v):
+    reserved = ['iss', 'sub', 'aud', 'exp', 'nbf', 'iat', 'jti']
+    mk = (v['replay'].get('model') or {}).get('key')
+    keys = set(reserved) | {'', 'a', 'data', 'Exp', 'exp ', ' exp', 'exp\x00', 'EXP', 'ISS', 'Sub', 'jtI', 'expx', 'xexp', 'is', 'iss.', 'nbf\n', 'äud'}
+    if isinstance(mk, str): keys.add(mk)
+    cases = [{'kind': 'custom', 'form': f, 'text': k} for k in sorted(keys) for f in ('key_only', 'tuple_str', 'tuple_string')]
+    good = ['2019-01-01T00:00:00Z', '2019-01-01T00:00:00+00:00', '2031-12-31T23:59:59.123Z', '2031-12-31T23:59:59-07:30']
+    bad = ['hello', '', ' 2019-01-01T00:00:00Z', '\n2019-01-01T00:00:00Z', 'x2019-01-01T00:00:00Z', 'T00:00:00Z', 'exp']
+    for k in ('exp', 'nbf', 'iat'):
+        for f in ('str', 'string'):
+            cases += [{'kind': k, 'form': f, 'text': t} for t in good + bad]
+    out = run_native({'steps': [{'op': 'claim_ctors', 'cases': cases, 'out': 'C'}], 'violated_if': []}); ses.native_runs = getattr(ses, 'native_runs', 0) + 1
+    res = (out.get('trace') or [{}])[0].get('results')
+    if res is None: v['native'] = out; return None
+    for r in res:
+        bad_ = None
+        if r['result'] == 'panic': bad_ = 'constructor panics'
+        elif r['kind'] == 'custom':
+            if (r['result'] == 'err') != (r['text'] in reserved): bad_ = 'custom claim key %r: %s' % (r['text'], r['result'])
+            elif r['result'] == 'ok' and r['value'] != r['text'] + '=': bad_ = 'custom claim key %r stored as %r' % (r['text'], r['value'])
+        else:
+            want_ok = r['text'] in good
+            if (r['result'] == 'ok') != want_ok: bad_ = '%s claim from %r (%s form): %s' % (r['kind'], r['text'], r['form'], r['result'])
+            elif want_ok and r['value'] != '%s=%s' % (r['kind'], r['text']): bad_ = '%s claim keeps %r instead of %r' % (r['kind'], r['value'], r['text'])
+        if bad_:
+            v['native'] = {'case': r, 'violated': bad_}; v['what'] += ' [natively: %s]' % bad_; v['replay'] = {'kind': 'c18'}
+            return True
+    return False
+
+
+PY_CONFIRM.update({'c18': confirm_claims, 'c18_time': confirm_claims})
